@@ -33,6 +33,7 @@ from .base import (
 from numpy import (
     bool_,
     full,
+    inf,
     isinf,
     where,
     zeros,
@@ -157,7 +158,11 @@ class Parallel(Connection):
         if shorted.all():
             return complex(0, 0) * f
         elif num_open_paths == len(self._elements):
-            raise InfiniteImpedance()
+            # All paths are open. This is an open path if this connection is
+            # nested inside of another parallel connection. Otherwise, the
+            # infinite impedance is reported when the impedance of the circuit
+            # as a whole has been calculated.
+            return full(f.shape, complex(inf, 0), dtype=ComplexImpedance)
 
         results: ComplexImpedances = zeros(f.shape, dtype=ComplexImpedance)
 
